@@ -130,6 +130,11 @@ LOOP_FUNCS = {"cds_wfs_for_each_blocking_safe": ("_cds_wfs_first", "_cds_wfs_nex
               "__cds_wfcq_for_each_blocking_safe": ("___cds_wfcq_first_blocking", "___cds_wfcq_next_blocking", True)}
 
 
+# caa_container_of(p, T, m) rendered as the identity (m is the first member; static-asserted); any other pair is `Expr.parent`
+ZERO_CONTAINERS = {("struct cds_lfq_node_rcu_dummy", "parent"), ("struct urcu_wait_node", "node"), ("struct cds_wfs_head", "node"),
+                   ("struct cds_lfs_head", "node")}
+
+
 class Unsupported(Exception):
     pass
 
@@ -330,7 +335,14 @@ class Parser:
             start = self.i
             self.skip_type_in_parens()
             txt = " ".join(self.t[start:self.i - 1])
-            e = ("cexpr", "sizeof(%s)" % txt, "SIZEOF_" + re.sub(r"\W+", "_", txt).strip("_"))
+            m = re.match(r"^(\*\s*)?([A-Za-z_]\w*)$", txt)
+            if m and m.group(2) in self.tr.ltypes and m.group(2) in self.tr.locals:
+                # sizeof of a local / of what a local points to: the declared type, with its pointer depth
+                depth = self.tr.lptr.get(m.group(2), 0) - (1 if m.group(1) else 0)
+                if depth < 0:
+                    raise Unsupported("sizeof(*x) of a non-pointer")
+                txt = self.tr.ltypes[m.group(2)] + " " + "*" * depth
+            e = ("cexpr", "sizeof(%s)" % txt, "SIZEOF_" + re.sub(r"\W+", "_", txt.replace("*", "P")).strip("_"))
         elif tok == "(":
             e = self.expr()
             self.eat(")")
@@ -445,10 +457,13 @@ class Parser:
         tystart = getattr(self, "_tystart", self.i)
         tytxt = " ".join(x for x in self.t[tystart:self.i] if x not in ("const", "volatile", "static", "register"))
         while True:
+            stars = 0
             while self.peek() in ("*", "const"):
-                self.eat()
+                if self.eat() == "*":
+                    stars += 1
             name = self.eat()
             self.tr.ltypes[name] = tytxt
+            self.tr.lptr[name] = stars
             if not re.match(r"^[A-Za-z_]\w*$", name):
                 raise Unsupported("declarator %r" % name)
             self.tr.locals.add(name)
@@ -696,6 +711,7 @@ class Translator:
         self.need_consts = set()
         self.zero_offsets = set()
         self.cexprs = {}
+        self.lptr = {}
         self.define_files = set()
         self.local_consts = {}
         self.ltypes = {}
@@ -749,6 +765,7 @@ class Translator:
                 ids = [fp.group(1)] if fp else re.findall(r"[A-Za-z_]\w*", re.sub(r"__attribute__\s*\(\(.*?\)\)", "", p))
                 params.append(ids[-1])
                 self.ltypes[ids[-1]] = " ".join(x for x in ids[:-1] if x not in ("const", "volatile"))
+                self.lptr[ids[-1]] = p.count("*")
         saved = (self.locals, self.tmpn, self.memlocals)
         self.cur_params = list(params)
         self.locals, self.tmpn, self.memlocals = set(params), 0, set()
@@ -882,8 +899,11 @@ class Translator:
             return pc + [".ifte (%s) (%s) (%s)" % (c, self.blk(pa + [".assign %s (%s)" % (lstr(t), a)]),
                                                    self.blk(pb + [".assign %s (%s)" % (lstr(t), b)]))], ".var %s" % lstr(t)
         if k == "container_of":
-            self.zero_offsets.add((e[2], e[3]))
-            return self.rv(e[1])
+            if (e[2], e[3]) in ZERO_FIELDS or (e[2], e[3]) in ZERO_CONTAINERS:
+                self.zero_offsets.add((e[2], e[3]))
+                return self.rv(e[1])
+            p, a = self.rv(e[1])
+            return p, ".parent (%s) %s" % (a, lstr(e[3]))
         if k == "cexpr":
             self.cexprs[e[2]] = e[1]
             v = self.consts.get(e[2])
@@ -1402,7 +1422,14 @@ UNITS = [
       ("futex_wait", "src/workqueue.c"), ("futex_wake_up", "src/workqueue.c"), ("wake_worker_thread", "src/workqueue.c"),
       ("wake_up_defer", "src/urcu-defer-impl.h"), ("wait_defer", "src/urcu-defer-impl.h"),
       ("_defer_rcu", "src/urcu-defer-impl.h"), ("rcu_defer_barrier_queue", "src/urcu-defer-impl.h"),
-      ("urcu_wake_all_waiters", "src/urcu-wait.h")]),
+      ("urcu_wake_all_waiters", "src/urcu-wait.h"),
+      ("call_rcu_thread", "src/urcu-call-rcu-impl.h"), ("call_rcu", "src/urcu-call-rcu-impl.h"),
+      ("rcu_barrier", "src/urcu-call-rcu-impl.h"), ("_rcu_barrier_complete", "src/urcu-call-rcu-impl.h"),
+      ("free_completion", "src/urcu-call-rcu-impl.h"),
+      ("workqueue_thread", "src/workqueue.c"), ("urcu_workqueue_queue_work", "src/workqueue.c"),
+      ("urcu_workqueue_flush_queued_work", "src/workqueue.c"), ("urcu_workqueue_pause_worker", "src/workqueue.c"),
+      ("urcu_workqueue_resume_worker", "src/workqueue.c"), ("urcu_workqueue_wait_completion", "src/workqueue.c"),
+      ("_urcu_workqueue_wait_complete", "src/workqueue.c")]),
     ("memb.", ("RCU_MEMBARRIER",), ("src/urcu.c",), ["src/urcu.c", "src/urcu-wait.h"],
      [("smp_mb_master", "src/urcu.c"), ("wait_gp", "src/urcu.c"), ("wait_for_readers", "src/urcu.c"), ("synchronize_rcu", "src/urcu.c")]),
     ("mb.", ("RCU_MB",), ("src/urcu.c",), ["src/urcu.c", "src/urcu-wait.h"],
@@ -1437,8 +1464,13 @@ def main():
                 errors.append(str(e))
         trs.append(tr)
     if not consts_txt:
-        c = ["#define _LGPL_SOURCE 1", "#include <stdio.h>", "#include <stddef.h>", "#include <poll.h>", "#include <limits.h>",
-             "#include <stdlib.h>", "#include <errno.h>", "#include <signal.h>", "#include <pthread.h>", "#include <linux/membarrier.h>", "#include <urcu/futex.h>", "#include <urcu/ref.h>",
+        # the constants program is compiled inside the library's own translation units (private struct types, enums and
+        # #defines of src/urcu.c and everything it includes, and of src/workqueue.c): static names both define are renamed
+        c = ["#define _LGPL_SOURCE 1", "#define RCU_MEMBARRIER 1", '#include "urcu.c"',
+             "#define set_thread_cpu_affinity wq_set_thread_cpu_affinity", "#define free_completion wq_free_completion",
+             "#define futex_wait wq_futex_wait", "#define futex_wake_up wq_futex_wake_up",
+             '#include "workqueue.c"', "#undef set_thread_cpu_affinity", "#undef free_completion", "#include <stdio.h>", "#include <stddef.h>", "#include <poll.h>", "#include <limits.h>",
+             "#include <stdlib.h>", "#include <errno.h>", "#include <signal.h>", "#include <pthread.h>", "#include <urcu/futex.h>", "#include <urcu/ref.h>",
              "#include <urcu/urcu-memb.h>", "#include <urcu/urcu-bp.h>", "#include <urcu/urcu-qsbr.h>", "#include <urcu/wfstack.h>",
              "#include <urcu/lfstack.h>", "#include <urcu/wfcqueue.h>", "#include <urcu/rculfqueue.h>", "#include <urcu/call-rcu.h>",
              "#include <urcu/workqueue.h>" if os.path.exists(os.path.join(REPO, "include/urcu/workqueue.h")) else "",
@@ -1447,6 +1479,9 @@ def main():
         for f in sorted(set(x for tr in trs for x in tr.define_files)):
             for m in re.finditer(r"^[ \t]*#[ \t]*define[ \t]+([A-Z][A-Z0-9_]*)[ \t]+(.+)$", trs[0].texts.get(f) or strip_comments(open(os.path.join(REPO, f)).read()), re.M):
                 c.append("#ifndef %s\n#define %s %s\n#endif" % (m.group(1), m.group(1), m.group(2).strip()))
+        c.append("/* never called here: the program only prints constants */")
+        c.append("__attribute__((weak)) int compat_futex_noasync(int32_t *u, int o, int32_t v, const struct timespec *t, int32_t *u2, int32_t v3) { return -1; }")
+        c.append("__attribute__((weak)) int compat_futex_async(int32_t *u, int o, int32_t v, const struct timespec *t, int32_t *u2, int32_t v3) { return -1; }")
         c.append("int main(void) {")
         need, cex, zero = set(), {}, set()
         for tr in trs:
